@@ -1,6 +1,7 @@
 package main
 
 import (
+	"errors"
 	"fmt"
 	"math/big"
 	"strconv"
@@ -217,6 +218,35 @@ func c13Case(w *rt.W, s uint64) {
 			return "refused"
 		}})
 	}
+	// accepted parses of other spellings of small values in between (a parser that remembers a text it has just
+	// read must not hand it to the next rendering), and the text marshaller, which is the default rendering
+	spellings := []string{"0KiB", "0GiB", "0 EiB", "0kB", "0 B", "1024B", "1 KiB", "1024 KiB", "1000kB", "0YiB", `"0MiB"`, `{"value":0,"unit":"TiB"}`}
+	for k := uint64(0); k < 2; k++ {
+		p := spellings[(s+k*7)%uint64(len(spellings))]
+		calls = append(calls, rcall{"parse of " + p, "done", func() string {
+			// (whether it is accepted depends on the configuration in force, which is C08's and C12's subject; what
+			// matters here is that it ran immediately before some rendering)
+			rule := size.Rule(0)
+			if p[0] == '"' || p[0] == '{' {
+				rule = size.RuleEnableJSONStringForm | size.RuleEnableJSONObjectForm
+			}
+			_, _ = size.DefaultParser(p, rule)
+			var z size.Size
+			_ = z.UnmarshalText([]byte(p))
+			_ = z.UnmarshalJSON([]byte(p))
+			return "done"
+		}})
+	}
+	if !size.DisableMarshalTextUnit {
+		mtCall := func() string {
+			b, err := sz.MarshalText()
+			if err != nil {
+				return "error: " + err.Error()
+			}
+			return string(b)
+		}
+		calls = append(calls, rcall{"MarshalText", plain, mtCall}, rcall{"MarshalText-again", plain, mtCall})
+	}
 	for k := 0; k < 3; k++ { // the other packages at work in between
 		k := k
 		calls = append(calls, rcall{"another package formats or refuses something", "done", func() string { foreignActivity(int(s%997)+4*k, "size"); return "done" }})
@@ -265,6 +295,32 @@ func runC13(c *rt.Ctx) {
 		sc := rt.ReplayCtx("C13")
 		sc.Serial("selftest", func(w *rt.W) { w.Fail("k", "render", nil, "1&nbsp;025B", "1025B", "synthetic") })
 		c.SelfTest("monitor-records-a-mismatch", sc.Violations() == 1)
+	}
+	// history: a configured Formatter that fails. String falls back to the byte count, PrettyString and PrettyHTML
+	// panic (both documented), MarshalText reports the error. After the default is restored every rendering
+	// must be right again - the concurrent streams below all run after this episode.
+	{
+		old := size.Formatter
+		size.Formatter = func(buf []byte, s size.Size, f size.Format) ([]byte, error) { return nil, errors.New("formatter refuses") }
+		c.Serial("failing-formatter-episode", func(w *rt.W) {
+			for _, s := range []size.Size{0, 1023, 1536 << 20, 1 << 30, ^size.Size(0)} {
+				for k := 0; k < 3; k++ {
+					if got, want := s.String(), strconv.FormatUint(uint64(s), 10); got != want {
+						w.Fail("failing-formatter-string-fallback", "render", rt.Args("size", fmt.Sprint(uint64(s)), "path", "String with a failing Formatter"), got, want, "String falls back to the byte count when the configured Formatter fails")
+					}
+					p1, _ := rt.Call(func() { _ = s.PrettyString() })
+					p2, _ := rt.Call(func() { _ = s.PrettyHTML() })
+					_, merr := s.MarshalText()
+					w.Eval(4)
+					if !p1 || !p2 || merr == nil {
+						w.Fail("failing-formatter-not-reported", "render", rt.Args("size", fmt.Sprint(uint64(s)), "path", "PrettyString/PrettyHTML/MarshalText with a failing Formatter"), fmt.Sprint("panicked: ", p1, " ", p2, " MarshalText error: ", merr), "panic, panic, error", "documented behaviour under a failing Formatter")
+					}
+				}
+			}
+			w.ClassN("failing-formatter-episode", 1)
+		})
+		size.Formatter = old
+		c.Require("failing-formatter-episode", 1)
 	}
 	c.Parallel("below-2^20", 0, func(w *rt.W) {
 		for s := uint64(w.Shard); s < 1<<20; s += uint64(w.NShards) {
